@@ -29,7 +29,7 @@ from .. import present
 
 # --------------------------------------------------------------------------- pool recipes
 
-KINDS = ("lon", "lat", "x", "w", "z", "i", "iu", "s", "u", "rec", "rec2", "cov", "tabx")
+KINDS = ("lon", "lat", "x", "w", "rad", "z", "i", "iu", "s", "u", "rec", "rec2", "cov", "tabx")
 
 
 def values(rec, n):
@@ -50,6 +50,8 @@ def values(rec, n):
         return np.round(g.normal(0.0, 10.0 ** g.integers(-1, 3), n), 3)
     if k == "w":
         return np.round(g.uniform(0.1, 5.0, n), 3)
+    if k == "rad":
+        return np.round(g.uniform(0.1, 5.0, n), 3)          # search radii in degrees (no special values: cost)
     if k == "z":
         return np.round(np.sort(g.uniform(0.01, 3.0, n)), 4)
     if k == "i":
@@ -92,7 +94,7 @@ def specials(rec, v):
         return v
     g = np.random.Generator(np.random.PCG64(rec["seed"] + 7))
     k = rec["kind"]
-    pool = {"z": [-1.0, -9999.0, 0.0, -0.01], "x": [np.nan, np.inf, -np.inf, -99.0, 0.0], "w": [0.0, -1.0],
+    pool = {"z": [-1.0, -9999.0, 0.0, -0.01], "x": [np.nan, np.inf, -np.inf, -99.0, 0.0], "w": [0.0, -1.0, np.nan, np.inf],
             "lon": [-10.0, 360.0, 720.5, -0.0], "lat": [90.0, -90.0, 0.0], "tabx": []}.get(k, [])
     if not pool:
         return v
@@ -504,7 +506,7 @@ def _(E, a, o):
     return _htm(E, o).match(a[0], a[1], a[2], a[3], o.get("radius", 5.0), maxmatch=o.get("maxmatch", 1))
 
 
-@site("HTM.match(perpoint)", "htm", ["lon", "lat", "lon", "lat", "w"])
+@site("HTM.match(perpoint)", "htm", ["lon", "lat", "lon", "lat", "rad"])
 def _(E, a, o):
     return _htm(E, o, cap=6).match(a[0], a[1], a[2], a[3], a[4], maxmatch=o.get("maxmatch", -1))   # radii <= 5 deg
 
